@@ -1,7 +1,7 @@
 (* C08Theorems.v — the property theorems of C08 and nothing else.  Each is closed by
    `exact <lemma>` and followed by Print Assumptions (audited by ./check on every run). *)
 From V.lib Require Import Base.
-From V.c08 Require Import C08Model C08ReadProofs.
+From V.c08 Require Import C08Model C08Spec C08ReadProofs.
 
 (* ReadData / CopyData (repaired text, `end > dataLen`): for every file, every mdat box lying in it
    (8- or 16-byte header), every range that starts at a payload byte and ends at or before the end of
